@@ -94,6 +94,8 @@ func (s tstep) lean() string {
 		return fmt.Sprintf(".euiTok %d", s.Bits)
 	case "nodeid":
 		return ".nodeId"
+	case "salt":
+		return ".salt"
 	case "tokstr":
 		return ".tokStr"
 	case "blank":
@@ -258,6 +260,11 @@ func (p *pkgInfo) parsePlanOf(fd *ast.FuncDecl, depth int) ([]tstep, bool) {
 				}
 				return nil, false
 			}
+			// the salt of NSEC3PARAM: `if l.token != "-" { rr.SaltLength = uint8(len(l.token) / 2); rr.Salt = l.token }`
+			if s.Else == nil && s.Init == nil && p.src(s) == `ifl.token!="-"{rr.SaltLength=uint8(len(l.token)/2)rr.Salt=l.token}` {
+				out = append(out, tstep{Kind: "salt", Field: "Salt"})
+				continue
+			}
 			// `if l.value != zString { return … }` in front of `rr.F = l.token`: the token, which must be a string token
 			if s.Else == nil && s.Init == nil && p.src(s.Cond) == "l.value!=zString" && len(s.Body.List) == 1 {
 				if _, ok := s.Body.List[0].(*ast.ReturnStmt); ok && idx+1 < len(stmts) {
@@ -386,14 +393,33 @@ func (p *pkgInfo) printPlanOf(fd *ast.FuncDecl, typ string) ([]tstep, bool) {
 			return []tstep{{Kind: "uint", Bits: 16, Field: m[1]}, {Kind: "blank"}, {Kind: "hexgroups", Bits: 16, Group: 4, Sep: ':', Upper: m[2] == "X", Field: m[3]}}, true
 		}
 	}
-	if len(fd.Body.List) != 1 {
-		return nil, false
-	}
-	ret, ok := fd.Body.List[0].(*ast.ReturnStmt)
-	if !ok || len(ret.Results) != 1 {
-		return nil, false
-	}
 	var leaves []ast.Expr
+	var parts []ast.Expr
+	if n := len(fd.Body.List); n >= 2 {
+		// `s := e1; s += e2; …; return s`: the concatenation of the parts
+		first, ok1 := fd.Body.List[0].(*ast.AssignStmt)
+		last, ok2 := fd.Body.List[n-1].(*ast.ReturnStmt)
+		if !ok1 || !ok2 || first.Tok != token.DEFINE || len(first.Lhs) != 1 || len(first.Rhs) != 1 || p.src(first.Lhs[0]) != "s" ||
+			len(last.Results) != 1 || p.src(last.Results[0]) != "s" {
+			return nil, false
+		}
+		parts = append(parts, first.Rhs[0])
+		for _, st := range fd.Body.List[1 : n-1] {
+			as, ok := st.(*ast.AssignStmt)
+			if !ok || as.Tok != token.ADD_ASSIGN || len(as.Lhs) != 1 || len(as.Rhs) != 1 || p.src(as.Lhs[0]) != "s" {
+				return nil, false
+			}
+			parts = append(parts, as.Rhs[0])
+		}
+	} else if n == 1 {
+		ret, ok := fd.Body.List[0].(*ast.ReturnStmt)
+		if !ok || len(ret.Results) != 1 {
+			return nil, false
+		}
+		parts = append(parts, ret.Results[0])
+	} else {
+		return nil, false
+	}
 	var walk func(e ast.Expr)
 	walk = func(e ast.Expr) {
 		if b, ok := e.(*ast.BinaryExpr); ok && b.Op == token.ADD {
@@ -407,7 +433,9 @@ func (p *pkgInfo) printPlanOf(fd *ast.FuncDecl, typ string) ([]tstep, bool) {
 		}
 		leaves = append(leaves, e)
 	}
-	walk(ret.Results[0])
+	for _, e := range parts {
+		walk(e)
+	}
 	if len(leaves) == 0 || p.src(leaves[0]) != "rr.Hdr.String()" {
 		return nil, false
 	}
@@ -469,6 +497,10 @@ func (p *pkgInfo) printPlanOf(fd *ast.FuncDecl, typ string) ([]tstep, bool) {
 					continue
 				}
 			}
+		}
+		if c, ok := isCall(l, "", "saltToString"); ok && len(c.Args) == 1 && rrField(c.Args[0]) != "" {
+			out = append(out, tstep{Kind: "salt", Field: rrField(c.Args[0])})
+			continue
 		}
 		if c, ok := isCall(l, "", "euiToString"); ok && len(c.Args) == 2 && rrField(c.Args[0]) != "" {
 			switch p.src(c.Args[1]) {
